@@ -23,7 +23,8 @@ RULE = ("exhaustive single-operation grid (initial length 1-4 x scalar/vector n 
         "grammar; non-trivial = padding happened, or start != default, or vector input; distinct by sha1 of "
         "(initial path, operation list)")
 ASSUMPTIONS = ["scipy Rotation is the trusted rotation algebra",
-               "per-step anchors are deciding only when len(anchor) in {1, n}; other lengths: invariants only"]
+               "a per-step anchor path and a vector rotation of different lengths: the shorter one is edge-padded at its "
+               "end (the documented edge-padding philosophy); a (1,3) anchor with a scalar rotation: invariants only"]
 FORMS = ["rotate", "angax", "rotvec", "euler1", "euler3", "matrix", "mrp", "quat"]
 
 
@@ -87,7 +88,10 @@ def make_anchor(rng, kind, n, scalar):
         return rng.normal(size=3).tolist()
     if kind == "single2d":
         return rng.normal(size=(1, 3)).tolist()
-    return rng.normal(size=(1 if scalar else n, 3)).tolist()  # per-step (length 1 for scalar input)
+    if scalar:
+        return rng.normal(size=(1, 3)).tolist()
+    k = n if rng.random() < 0.6 else int(rng.integers(1, n + 3))  # also shorter / longer anchor paths
+    return rng.normal(size=(k, 3)).tolist()
 
 
 def gen_op(rng, L, kind=None):
@@ -216,10 +220,15 @@ def apply_model(model, op):
                     # a (1,3) anchor makes a scalar rotation a vector input of length 1 (code-defined
                     # promotion, not stated by the property): invariants only
                     return False, 0, 0
-                if not scalar and len(a) not in (1, n):
-                    return False, 0, 0
-                if not scalar and len(a) == 1 and n != 1:
-                    return False, 0, 0
+                if not scalar and len(a) != n:
+                    # documented philosophy (docs_pos_ori.md): "whenever path entries beyond the existing path
+                    # length are needed the edge-entries of the existing path are returned" - the shorter of
+                    # (rotation input, anchor path) is edge-padded AT ITS END to the length of the longer
+                    m = max(len(a), n)
+                    if len(a) < m:
+                        a = np.pad(a, ((0, m - len(a)), (0, 0)), "edge")
+                    else:
+                        rot = R.from_quat(np.pad(rot.as_quat(), ((0, m - n), (0, 0)), "edge"))
         b, e = model.rotate(rot, scalar, a, op["start"])
         return True, b, e
     if k == "set_position":
